@@ -4,6 +4,7 @@ import Driver.Life
 import Driver.C09
 import Driver.Boxing
 import Driver.C08
+import Driver.SpawnClean
 import Driver.Early
 import Driver.EarlyStep
 import Driver.Registry
@@ -35,6 +36,7 @@ def main (args : List String) : IO UInt32 := do
       | "c02-rpc" => Driver.C09.runC02 ops impl
       | "c02-box" => Driver.BoxingD.run ops impl
       | "c08" => Driver.C08.run ops impl
+      | "c08-clean" => Driver.SpawnCleanD.run ops impl
       | "c07-early" => Driver.EarlyD.run ops impl
       | "c07-earlystep" => Driver.EarlyStepD.run ops impl
       | "registry" => Driver.Registry.run ops impl
